@@ -278,6 +278,45 @@ def wl_roomy_exact(ctx, rng, case):
     case.nontrivial = True
 
 
+def wl_big_clear(ctx, rng, case):
+    """big sketches (1 000 .. 10 000 counters) fed HUNDREDS of distinct keys - a good part of the table in use -, cleared, and used again: after
+    clear() every estimate is 0 and so is the total; the bounds hold for the second life as for the first"""
+    import probables as P
+
+    width, depth = rng.choice([(1024, 1), (512, 4), (2000, 5), (1000, 2), (4096, 1), (300, 7), (64, 16)])
+    cls = rng.choice([P.CountMinSketch, P.CountMinSketch, P.CountMeanSketch, P.HeavyHitters, P.StreamThreshold])
+    extra = {"num_hitters": 5} if cls is P.HeavyHitters else ({"threshold": 3} if cls is P.StreamThreshold else {})
+    s = cls(width=width, depth=depth, **extra)
+    s.query_type = "min"
+    n_keys = rng.choice([width * depth // 8, width * depth // 4, width * depth // 3, width * depth // 2]) // depth + rng.randint(0, 40)
+    keys = [f"key-{case.index}-{i}" for i in range(max(50, min(n_keys, 2500)))]
+    case.desc = {"cls": cls.__name__, "width": width, "depth": depth, "n_keys": len(keys), "kind": "big sketch, cleared, used again"}
+    for life in range(2 + (case.index % 2)):
+        true = Counter()
+        for kx in keys if life == 0 else rng.sample(keys, len(keys) // (life + 1)):
+            n = rng.choice([1, 1, 2, 5])
+            s.add(kx, n)
+            true[kx] += n
+        total = sum(true.values())
+        ctx.check(s.elements_added == total, f"elements_added is not the sum of the true counts in life {life + 1} of a big sketch", got=s.elements_added, want=total)
+        for kx in rng.sample(keys, min(300, len(keys))) + ["never-added"]:
+            est = s.check(kx)
+            ctx.counters["oracle_evaluations"] += 1
+            if est < true[kx] or est > total:
+                ctx.fail(f"estimate outside [true count, total] in life {life + 1} of a big sketch (after {life} clears)", key=kx, estimate=est, true=true[kx], total=total)
+        s.clear()
+        ctx.check(s.elements_added == 0, "elements_added is not 0 after clear()", got=s.elements_added)
+        left = [kx for kx in keys if s.check(kx) != 0]
+        ctx.counters["oracle_evaluations"] += len(keys)
+        if left:
+            ctx.fail(f"{len(left)} keys are still estimated above 0 right after clear() of a {width}x{depth} sketch that had seen {len(true)} distinct keys", first=left[:4],
+                     estimate=s.check(left[0]))
+        ctx.check(not any(bytes(s)[:-16]), "counters are not all zero after clear()")
+        ctx.count("big_sketches_cleared")
+    ctx.count("full_probes")
+    case.nontrivial = True
+
+
 def wl_width_sweep(ctx, rng, case):
     """EVERY width from 1 upwards (one history each), then powers of two and their neighbours up to 2^20"""
     extra = [w for e in range(9, 21) for w in (2**e - 1, 2**e, 2**e + 1)]
@@ -297,6 +336,7 @@ PROP = Prop(
         Workload("history", wl_history, quick=1500, thorough=600000),
         Workload("roomy_exact", wl_roomy_exact, quick=150, thorough=24000),
         Workload("width_sweep", wl_width_sweep, quick=336, thorough=3360),
+        Workload("big_clear", wl_big_clear, quick=14, thorough=280),
     ],
     assumptions=["true counts kept by the harness; the unshared-counter predicate uses the sketch's public hashes() reduced mod width per row (documented addressing)",
                  "min mode: a counter that no other live key touches equals the key's true count, so the minimum over rows is exact (count-min definition)"],
